@@ -75,6 +75,12 @@ Section DisparityRange.
   Variable D : arr (option Q).          (* disp["disparity_map"] of the coarse level (None = NaN) *)
   Variable V : arr Z.                   (* disp["validity_mask"] *)
   Variables umin umax : Q.              (* dmin_user / dmax_user of that level (after x sf) *)
+  (* scipy.ndimage.zoom(a, sf, order=0) as an index map per axis: output row r reads input row
+     zrow r, output column c reads input column zcol c.  The maps are DATA (the harness
+     observes them on the very zoom calls of the run); the theorems hold for every pair of
+     maps satisfying the order-0 contract (Spec.zoom_contract); [zoom_idx] below is the exact
+     rational formula, which scipy follows except on exact ties *)
+  Variables zrow zcol : Z -> Z.
 
   Definition rows : Z := nr D.
   Definition cols : Z := nc D.
@@ -111,13 +117,9 @@ Section DisparityRange.
     if isnan_tmp r c then fallback else looped B r c.
   Definition range_at : Z -> Z -> option Q * option Q := range_at_B CHUNK.
 
-  (* scipy.ndimage.zoom(a, sf, order=0): output index o reads input index
-     floor(o * (n - 1) / (sf * n - 1) + 1/2) *)
-  Definition zoom_idx (n o : Z) : Z := (2 * o * (n - 1) + (sf * n - 1)) / (2 * (sf * n - 1)).
-
   (* disparity_range(...) : the two zoomed maps, of shape (sf * rows, sf * cols) *)
   Definition disparity_range : arr (option Q * option Q) :=
-    mkArr (sf * rows) (sf * cols) (fun r c => range_at (zoom_idx rows r) (zoom_idx cols c)).
+    mkArr (sf * rows) (sf * cols) (fun r c => range_at (zrow r) (zcol c)).
 
   (* ... then matching_cost_prepare of the next level: x scale_factor *)
   Definition scale_pair (p : option Q * option Q) : option Q * option Q :=
@@ -126,6 +128,10 @@ Section DisparityRange.
     mkArr (sf * rows) (sf * cols) (fun r c => scale_pair (px disparity_range r c)).
 End DisparityRange.
 
+(* scipy.ndimage.zoom(a, sf, order=0), exact arithmetic: output index o reads input index
+   floor(o * (n - 1) / (sf * n - 1) + 1/2) *)
+Definition zoom_idx (sf n o : Z) : Z := (2 * o * (n - 1) + (sf * n - 1)) / (2 * (sf * n - 1)).
+
 (* ------------------------------------------------------------------ the whole data flow *)
 
 (* what one coarse level hands to run_multiscale: the left products and, when the right
@@ -133,7 +139,8 @@ End DisparityRange.
 Record level := mkLevel {
   lv_ws : Z;
   lv_left : arr (option Q) * arr Z;
-  lv_right : option (arr (option Q) * arr Z) }.
+  lv_right : option (arr (option Q) * arr Z);
+  lv_zoom : (Z -> Z) * (Z -> Z) }.       (* row and column index maps of the zoom calls of this level *)
 
 (* the grids (disp_min, disp_max) seen by one execution of matching_cost_run *)
 Inductive grids :=
@@ -149,10 +156,12 @@ Fixpoint finer_grids (invalid_bits marge sf : Z) (user : Q * Q) (lvls : list lev
   | [] => []
   | l :: rest =>
     let u := scale_interval sf user in
-    let gl := next_grids invalid_bits (lv_ws l) marge sf (fst (lv_left l)) (snd (lv_left l)) (fst u) (snd u) in
+    let gl := next_grids invalid_bits (lv_ws l) marge sf (fst (lv_left l)) (snd (lv_left l)) (fst u) (snd u)
+                         (fst (lv_zoom l)) (snd (lv_zoom l)) in
     let ur := right_interval u in
     let gr := option_map (fun dv => GMap (next_grids invalid_bits (lv_ws l) marge sf (fst dv) (snd dv)
-                                                     (fst ur) (snd ur))) (lv_right l) in
+                                                     (fst ur) (snd ur) (fst (lv_zoom l)) (snd (lv_zoom l))))
+                         (lv_right l) in
     (GMap gl, gr) :: finer_grids invalid_bits marge sf u rest
   end.
 
